@@ -31,7 +31,7 @@ func init() {
 }
 
 type c15Case struct {
-	Kind string `json:"kind"` // jac | curve | ecdsa
+	Kind string `json:"kind"` // jac | curve | ecdsa | hist (c15_hist.go) | firstuse
 	Op   string `json:"op"`
 	// jac: two Jacobian points, 12 limbs each (x, y, z)
 	A [12]uint64 `json:"a"`
@@ -43,6 +43,8 @@ type c15Case struct {
 	Model          bool `json:"model"` // also run the (slow) Lean model of the scalar multiplication
 	// ecdsa
 	D, Nonce, Msg []byte
+	// hist: calls sharing the same argument objects (c15_hist.go)
+	Steps []c15Step `json:"steps,omitempty"`
 }
 
 type c15Key struct {
@@ -165,7 +167,7 @@ func c15Wire12(l [12]uint64) vf.Wire { return toWireInts(l[:]) }
 // ---- execution ----
 
 func execC15(c *vf.Ctx, d *vf.Driver, cs c15Case) {
-	c.Case(fmt.Sprintf("%s/%s/%v/%v/%d/%s/%s/%s/%s/%x/%x/%x/%x/%x", cs.Kind, cs.Op, cs.A, cs.B, cs.X, cs.X1, cs.Y1, cs.X2, cs.Y2, cs.K, cs.K2, cs.D, cs.Nonce, cs.Msg), true)
+	c.Case(fmt.Sprintf("%s/%s/%v/%v/%d/%s/%s/%s/%s/%x/%x/%x/%x/%x", cs.Kind, cs.Op, cs.A, cs.B, cs.X, cs.X1, cs.Y1, cs.X2, cs.Y2, cs.K, cs.K2, cs.D, cs.Nonce, cs.Msg)+fmt.Sprint(cs.Steps), true)
 	c.Count(cs.Kind + ":" + cs.Op)
 	fail := func(kind, class, what, obs, req string) {
 		c.Fail(vf.Violation{Kind: kind, Class: class, What: what, Case: cs, Observed: obs, Required: req})
@@ -189,6 +191,10 @@ func execC15(c *vf.Ctx, d *vf.Driver, cs c15Case) {
 		execC15Curve(c, cs, fail, model)
 	case "ecdsa":
 		execC15Ecdsa(c, cs, fail)
+	case "hist":
+		execC15Hist(c, cs, fail)
+	case "firstuse":
+		c15FirstUseOne(c, uint64(cs.X))
 	}
 }
 
@@ -695,7 +701,9 @@ func c15Scalar(r *vf.Rand) []byte {
 }
 
 func genC15(r *vf.Rand) c15Case {
-	switch n := r.Intn(20); {
+	switch n := r.Intn(23); {
+	case n >= 20:
+		return genC15Hist(r)
 	case n < 11:
 		op := []string{"jadd", "jadd", "jadd", "jadd-alias", "jdouble", "jequal", "fromJacobian", "fromAffine", "lookup"}[r.Intn(9)]
 		cs := c15Case{Kind: "jac", Op: op}
@@ -819,9 +827,16 @@ func runC15(c *vf.Ctx) {
 	if SearchMode() {
 		n *= 3
 	}
+	// cold-start probe in fresh processes (search support for first-use concurrency; see C20)
+	c15FirstUseProbe(c, c.Seed, c.Budget(12, 64))
 	c.Parallel(16, true, func(w int, r *vf.Rand, d *vf.Driver) {
 		if w == 0 {
 			for _, cs := range cornersC15() {
+				execC15(c, d, cs)
+			}
+		}
+		if w == 1 {
+			for _, cs := range cornersC15Hist() {
 				execC15(c, d, cs)
 			}
 		}
